@@ -38,6 +38,9 @@ void read_session_map(char *dirname, struct uftrace_sym_info *sinfo, char *sid)
 	if (fp == NULL)
 		pr_err("cannot open maps file: %s", buf);
 
+	/* as in record_proc_maps(): no kernel address unless a [stack] line tells where it starts */
+	sinfo->kernel_base = -1ULL;
+
 	while (fgets(buf, sizeof(buf), fp) != NULL) {
 		uint64_t start, end;
 		char prot[5];
